@@ -11,7 +11,7 @@ use std::sync::{Arc, Mutex};
 
 pub const META: Meta = Meta {
     level: "exploration",
-    rule: "all cases prior-state {idle, dialing P1, connected P1, connected+dialing P1, connected P2, pending inbound} x PeerCondition(4) x dial shape {peer+explicit address list (all sequences of length 0..3 over {A1,A2,AL=listen address,AX=unsupported}), peer only, unknown peer + 1 address} x behaviour-provided list (all sequences of length 0..2 over {A1,A2,AL}) x extend flag x listening on AL or not; one Swarm::dial per case on a fresh real Swarm. Non-trivial = distinct cases that were rejected, or accepted with at least one address filtered out (duplicate or listen address).",
+    rule: "all cases prior-state {idle, dialing P1, connected P1, connected+dialing P1, connected P2, pending inbound, dialing P1 with override_role} x PeerCondition(4) x dial shape {peer+explicit address list (all sequences of length 0..3 over {A1,A2,AL=listen address,AX=unsupported}), peer only, unknown peer + 1 address} x behaviour-provided list (all sequences of length 0..2 over {A1,A2,AL}) x extend flag x listening on AL or not; one Swarm::dial per case on a fresh real Swarm. Non-trivial = distinct cases that were rejected, or accepted with at least one address filtered out (duplicate or listen address).",
     explanation: "Oracle: condition false => Err(DialPeerConditionFalse), exactly one DialFailure for that id, counters unchanged, no transport dial; accepted => the transport saw exactly the distinct non-listened addresses (first occurrence order), each once, each ending in /p2p/<peer> when a peer was given; nothing usable => NoAddresses with one DialFailure.",
     assumptions: &["addresses already carrying a /p2p suffix are outside the alphabet (the statement does not say how they compare)", "a single probe behaviour supplies the behaviour-provided addresses"],
 };
@@ -92,6 +92,12 @@ fn run_case(c: &Case) -> Result<(String, bool), String> {
         4 => {
             dial_plain(&mut sys, 2, 53)?;
             resolve_last(&mut sys, 2);
+        }
+        6 => {
+            // a pending dial to P1 made "as a listener" (override_role) is a dial too
+            let o = DialOpts::peer_id(peer(1)).addresses(vec![a(54)]).condition(PeerCondition::Always).override_role().build();
+            sys.swarm.dial(o).map_err(|e| format!("harness :: preparatory dial failed: {e}"))?;
+            dialing = true;
         }
         5 => {
             if c.listening {
@@ -242,7 +248,7 @@ pub fn run(ctx: &Ctx) -> Outcome {
     }
     let max_explicit = ctx.tier.pick(2, 3);
     let mut cases: Vec<Case> = Vec::new();
-    for prior in 0..6u8 {
+    for prior in 0..7u8 {
         for cnd in 0..4u8 {
             for listening in [false, true] {
                 let mut provided: Vec<Vec<usize>> = Vec::new();
